@@ -210,8 +210,8 @@ Proof.
   - unfold observe. cbn [fst]. unfold view_options_enter, k_view_options in *.
     apply some_pair_inj in E. destruct E as [<- _].
     match goal with |- context [tl_peek ?k _ l] => destruct (tl_peek_dict k l []) as [d Hd] end.
-    unfold v_empty_dict. rewrite Hd. unfold py_merge2.
-    destruct (py_update_dict d a) as [d' Hd']. rewrite Hd'.
+    unfold v_empty_dict. rewrite Hd.
+    destruct (py_merge2_dict d a) as [d' Hd']. rewrite Hd'.
     eapply tl_peek_push; [eassumption | reflexivity | apply Nat.ltb_lt; vm_compute; reflexivity].
   - unfold observe. cbn [fst]. unfold context_enter in E. apply some_pair_inj in E. destruct E as [<- _].
     destruct (get_context_shape l) as [[d [r [G Hd]]]|[N [He|Hn]]].
@@ -387,4 +387,40 @@ Proof.
   cbn [getter_of rule] in Q. rewrite Q.
   replace (observe GContextual init_state) with (VD []) by (vm_compute; reflexivity).
   rewrite contextual_merge_fresh; auto.
+Qed.
+
+(* --- view_options: the deep merge, key by key ------------------------------------------------------------------
+   a key given by the inner scope whose outer value and new value are both dicts is merged recursively
+   (atom_merge), any other new value replaces the outer one, keys not mentioned keep the outer value *)
+Definition merge_rule (outer new : option atom) : option atom :=
+  match outer, new with
+  | Some o, Some n => Some (atom_merge o n)
+  | Some o, None => Some o
+  | None, n => n
+  end.
+
+Theorem view_options_deep_merge : forall b a n, nodup_keys b = true ->
+  dict_get n (dict_merge a b) = merge_rule (dict_get n a) (dict_get n b).
+Proof.
+  unfold dict_merge. induction b as [|[k v] r IH]; intros a n ND; simpl.
+  - destruct (dict_get n a); reflexivity.
+  - simpl in ND. apply andb_prop in ND. destruct ND as [N1 N2]. rewrite IH by assumption.
+    destruct (Z.eqb_spec n k) as [->|D].
+    + rewrite dict_get_set_same. unfold dict_has in N1. destruct (dict_get k r); try discriminate.
+      destruct (dict_get k a); reflexivity.
+    + rewrite dict_get_set_other by assumption. reflexivity.
+Qed.
+
+(* the recursion: inside a dict-valued option the same rule applies one level down, and a non-dict on either side
+   means replacement *)
+Lemma atom_merge_dicts : forall od nd, atom_merge (AD od) (AD nd) = AD (dict_merge od nd).
+Proof.
+  intros od nd. cbn [atom_merge]. f_equal. unfold dict_merge. revert od.
+  induction nd as [|[k v] r IH]; intros od; simpl; auto.
+Qed.
+Lemma atom_merge_replace : forall o n, (forall d, n <> AD d) \/ (forall d, o <> AD d) -> atom_merge o n = n.
+Proof.
+  intros o n [H|H]; destruct n; try reflexivity; destruct o; try reflexivity.
+  - exfalso. eapply H; reflexivity.
+  - exfalso. eapply H; reflexivity.
 Qed.
